@@ -236,14 +236,18 @@ def r8(ctx, rep):
     syn = ctx.syn
     f = syn.fn("gen_projection::deduplicate_select_items", crate="prqlc")
     n_ins = 0
-    for m in matches_of(f["body"]):
+    # (the key may be computed in a private helper of the same file that the function calls: `Some(<key>)` there, `seen.insert(key)` here)
+    helpers = [h for h in syn.fns if h["crate"] == "prqlc" and h["file"] == f["file"] and "body" in h and h["path"] != f["path"]
+               and any(c.get("k") == "call" and last_seg(show(c["f"])) == h["name"] for c in walk(f["body"]))]
+    for m in [m_ for g_ in [f] + helpers for m_ in matches_of(g_["body"])]:
         for arm in m["arms"]:
             pt = show(arm["pat"], maxdepth=8)
             if "CompoundIdentifier" not in pt:
                 continue
             bound = [n["n"] for n in walk(arm["pat"]) if n.get("k") == "p_ident"]
             for n in walk(arm["body"]):
-                if n.get("k") == "mcall" and n["m"] == "insert" and n["a"]:
+                is_key = (n.get("k") == "mcall" and n["m"] == "insert" and n["a"]) or (n.get("k") == "call" and show(n["f"]) == "Some" and n["a"])
+                if is_key:
                     n_ins += 1
                     a = n["a"][0]
                     while a.get("k") == "mcall" and a["m"] in ("clone", "to_vec", "to_owned"):
